@@ -332,8 +332,10 @@ def rule_typedisc(ctx, prop: str) -> RuleResult:
     for n in ast.walk(ce.node):
         if isinstance(n, ast.If) and pat.match(pat.parse_expr("_M_l.type == T.int"), n.test) is not None and len(n.orelse) == 1 and isinstance(n.orelse[0], ast.If):
             k = n.orelse[0]
-            if pat.match(pat.parse_expr("_M_r.type == T.int"), k.test) is not None and any(isinstance(x, ast.Call) and last_name(x) == "err" for s in k.orelse for x in ast.walk(s)):
-                ok = True
+            if pat.match(pat.parse_expr("_M_r.type == T.int"), k.test) is not None and any(
+                isinstance(x, ast.Call) and last_name(x) == "err" for s in k.orelse if not isinstance(s, (ast.If, ast.For, ast.While, ast.Try)) for x in ast.walk(s)
+            ):
+                ok = True  # unconditional rejection in the final else
     need(ok, ce, "quasi-affine-product", "a product of two non-literal index expressions is non-affine")
     need(_err_guard(ce.node, "_M_o.type is not T.bool"), ce, "logical-needs-bool", "operands of and/or must be bool")
     need(_err_guard(ce.node, "not _M_o.type.is_indexable()"), ce, "compare-needs-index", "operands of comparisons must be index/size expressions")
